@@ -268,9 +268,14 @@ def handover_oracle(chk):
         got.append(profile)
         return 200.0
 
-    class Table:
+    import dataclasses
+
+    @dataclasses.dataclass
+    class Table:            # a callable object that cannot be hashed (a plain dataclass): an explicit callable like any other
+        factor: float = 3
+
         def __call__(self):
-            return state['scale'] * 3
+            return state['scale'] * self.factor
     flavours = {'scale_thickness': lambda: state['scale'], 'vickers_hardness': one_arg, 'thermal_conductivity': functools.partial(lambda k: state['scale'] * k, 2),
                 'grain_size': Table()}
     ip = Profile.round(diameter=30e-3, temperature=1473.15, strain=0, material=["C45"], length=1)
@@ -288,12 +293,16 @@ def handover_oracle(chk):
             if p.__dict__.get(k) is not f:
                 return chk.fail('handover-explicit', f"{label}: the explicit value of {k} is {p.__dict__.get(k, '<absent>')!r}, the incoming profile carries the callable "
                                 f"{f!r} as explicit value (an explicit value stays what was assigned, it is not replaced by what it evaluates to)", data)
-        state['scale'] = 1e-5
-        a = (p.scale_thickness, p.thermal_conductivity, p.grain_size)
-        state['scale'] = 4e-5
-        b = (p.scale_thickness, p.thermal_conductivity, p.grain_size)
-        got.clear()
-        h = p.vickers_hardness
+        try:
+            state['scale'] = 1e-5
+            a = (p.scale_thickness, p.thermal_conductivity, p.grain_size)
+            state['scale'] = 4e-5
+            b = (p.scale_thickness, p.thermal_conductivity, p.grain_size)
+            got.clear()
+            h = p.vickers_hardness
+        except Exception as e:      # noqa
+            return chk.fail('handover-explicit', f"{label}: reading a hook whose explicit value is a callable (lambda, one-argument function, functools.partial, an unhashable "
+                            f"callable object) raises {type(e).__name__}: {str(e)[:100]}", {'position': label})
         if a != (1e-5, 1e-5 * 2, 1e-5 * 3) or b != (4e-5, 4e-5 * 2, 4e-5 * 3) or h != 200.0 or not got or got[-1] is not p:
             return chk.fail('handover-explicit', f"{label}: explicit callables are not invoked on every read with the object read: first {a}, after the input changed {b}, "
                             f"one-argument callable got {'nothing' if not got else 'another object' if got[-1] is not p else 'the object'}", {'position': label})
